@@ -141,7 +141,11 @@ structure LeafLaws (L : Leaf) : Prop where
   time_parsed_ok : ∀ s t, L.parseTime s = some t → L.timeOK t = true
   time_noDq : ∀ t, dq ∉ L.fmtTime t
   time_nonempty : ∀ t, L.fmtTime t ≠ []
-  float_round : ∀ b, L.parseFloat (L.fmtFloat b) = some b
+  /-- printing then parsing a float64 gives its bits back — for the bit patterns a literal holds: every NaN prints as
+      `NaN` and parses to one of them, so the law without this condition is false of Go; the real code failed there
+      (a literal built from another NaN changed its UUID in a round trip) until `Build` kept one NaN (c010ae5) -/
+  float_round : ∀ b, L.floatOK b = true → L.parseFloat (L.fmtFloat b) = some b
+  float_parsed_ok : ∀ s b, L.parseFloat s = some b → L.floatOK b = true
   float_noDq : ∀ b, dq ∉ L.fmtFloat b
 
 theorem getLast?_append_singleton (A : Bytes) (x : UInt8) : (A ++ [x]).getLast? = some x := by
@@ -401,7 +405,7 @@ theorem parseLit_printLit_int (L : Leaf) (i : Int) (h : IsI64 i) : parseLit L (p
   have e2 : (([105, 110, 116, 54, 52] : Bytes) == [105, 110, 116, 54, 52]) = true := by decide
   simp only [e1, e2, Bool.false_eq_true, if_false, if_true, parseInt64_fmtInt i h, Option.map_some]
 
-theorem parseLit_printLit_float (L : Leaf) (hL : LeafLaws L) (b : Nat) : parseLit L (printLit L (.float b)) = some (.float b) := by
+theorem parseLit_printLit_float (L : Leaf) (hL : LeafLaws L) (b : Nat) (hb : L.floatOK b = true) : parseLit L (printLit L (.float b)) = some (.float b) := by
   have hcut := parseLit_cut L (L.fmtFloat b) [102, 108, 111, 97, 116, 54, 52] (by decide) (by decide) (by intro c hc; cases hc; decide)
   unfold parseLit
   have hp : printLit L (.float b) = (dq :: L.fmtFloat b) ++ sepLit ++ [102, 108, 111, 97, 116, 54, 52] := by simp [printLit]
@@ -414,7 +418,7 @@ theorem parseLit_printLit_float (L : Leaf) (hL : LeafLaws L) (b : Nat) : parseLi
   have e1 : (([102, 108, 111, 97, 116, 54, 52] : Bytes) == [98, 111, 111, 108]) = false := by decide
   have e2 : (([102, 108, 111, 97, 116, 54, 52] : Bytes) == [105, 110, 116, 54, 52]) = false := by decide
   have e3 : (([102, 108, 111, 97, 116, 54, 52] : Bytes) == [102, 108, 111, 97, 116, 54, 52]) = true := by decide
-  simp only [e1, e2, e3, Bool.false_eq_true, if_false, if_true, hL.float_round, Option.map_some]
+  simp only [e1, e2, e3, Bool.false_eq_true, if_false, if_true, hL.float_round b hb, Option.map_some]
 
 
 /-! ### The reader -/
@@ -741,14 +745,15 @@ theorem parseLit_printLit_blob (L : Leaf) (bs : Bytes) : parseLit L (printLit L 
 
 /-! ### Objects -/
 
-def LitOK : Lit → Prop
+def LitOK (L : Leaf) : Lit → Prop
   | .int i => IsI64 i
+  | .float b => L.floatOK b = true
   | _ => True
 
 def ObjOK (L : Leaf) : Obj → Prop
   | .node n => NodeOK n
   | .pred p => PredOK L p
-  | .lit l => LitOK l
+  | .lit l => LitOK L l
 
 theorem printLit_form (L : Leaf) (l : Lit) : ∃ v tname, printLit L l = (dq :: v) ++ sepLit ++ tname ∧ dq ∉ tname ∧ tname ≠ [] ∧
     (∀ c, tname.getLast? = some c → asciiSpace c = false) := by
@@ -760,11 +765,11 @@ theorem printLit_form (L : Leaf) (l : Lit) : ∃ v tname, printLit L l = (dq :: 
   | blob bs => exact ⟨[91] ++ (List.intercalate [32] (bs.map fun x => digits x.toNat)) ++ [rb], [98, 108, 111, 98], by simp [printLit], by decide, by decide,
       by intro c hc; cases hc; decide⟩
 
-theorem parseLit_printLit (L : Leaf) (hL : LeafLaws L) (l : Lit) (h : LitOK l) : parseLit L (printLit L l) = some l := by
+theorem parseLit_printLit (L : Leaf) (hL : LeafLaws L) (l : Lit) (h : LitOK L l) : parseLit L (printLit L l) = some l := by
   cases l with
   | bool b => exact parseLit_printLit_bool L b
   | int i => exact parseLit_printLit_int L i h
-  | float b => exact parseLit_printLit_float L hL b
+  | float b => exact parseLit_printLit_float L hL b h
   | text t => exact parseLit_printLit_text L t
   | blob bs => exact parseLit_printLit_blob L bs
 
